@@ -41,6 +41,9 @@ def units(tier):
         for rep in pools.REPS:
             for y in A.Y_S:
                 us.append(("far", kind, rep, y))
+    for kind in A.KINDS:
+        for rep in pools.REPS:
+            us.append(("derived", kind, rep))
     # the same additions in mode A, then B, then A again within one process
     for a in A.KINDS:
         for b in A.KINDS:
@@ -113,13 +116,35 @@ def check_point(ctx, kind, c, pdesc, durs):
                       "raised %s: %s" % (type(e).__name__, e))
         return
     dn, tod, off = impl.model_point(pdesc, kind)
+    want_rep, want_tz = pdesc["rep"], list(pdesc["tz"])
+    if pdesc.get("via"):
+        # a derived operand: a value reached through conversions/shifts, whose private state no constructor call
+        # produces. What it denotes is read back from the object itself (alpha), not assumed.
+        try:
+            p = _derive(p, pdesc["via"])
+        except Exception as e:
+            ctx.count("derivation_failed(C03/C06's business)")
+            return
+        r0 = impl.alpha_fast(p, c)
+        if r0[8] is not None:
+            ctx.count("derived_operand_invalid(C03/C06's business)")
+            return
+        want_rep, want_tz = r0[0], [p._time_zone._hours, p._time_zone._minutes]
+        dn, off = r0[6], r0[5]
+        from fractions import Fraction as _F
+        tod = _F(r0[7] - (dn * 86400 - off * 60))
     if tod.denominator == 1:
         tod = int(tod)
     inst_p = dn * 86400 + tod - off * 60
     tcls = pools.time_class(pdesc["t"])
     tform = pdesc["t"][0]
     key_p = impl.canon_point(p)
-    for du in durs:
+    try:
+        hash(p)      # the operand has been hashed (and printed) before it is shifted: results must not inherit that
+        str(p)
+    except Exception:
+        pass
+    for k_du, du in enumerate(durs):
         ddesc = du.desc
         case = lambda: {"kind": "add", "mode": kind, "p": pdesc, "d": ddesc}  # noqa: E731
         impl.tick_reset()
@@ -144,10 +169,10 @@ def check_point(ctx, kind, c, pdesc, durs):
             continue
         if h == 24 and not (du.zero and sig["h24"]):
             ctx.violation("fields_valid", dict(sig, part="h24"), case, "0 <= h < 24", impl.sstr(q))
-        if rep != pdesc["rep"]:
-            ctx.violation("keeps_representation", sig, case, pdesc["rep"], rep)
-        if qoff != off or [q._time_zone._hours, q._time_zone._minutes] != list(pdesc["tz"]):
-            ctx.violation("keeps_offset", sig, case, pdesc["tz"], [q._time_zone._hours, q._time_zone._minutes])
+        if rep != want_rep:
+            ctx.violation("keeps_representation", sig, case, want_rep, rep)
+        if qoff != off or [q._time_zone._hours, q._time_zone._minutes] != want_tz:
+            ctx.violation("keeps_offset", sig, case, want_tz, [q._time_zone._hours, q._time_zone._minutes])
         exact = not (tcls == "general" or du.cls == "general") and (du.m900 or tform not in ("hf", "hmf"))
         if exact:
             ctx.counters["exact_domain"] = ctx.counters.get("exact_domain", 0) + 1
@@ -168,11 +193,48 @@ def check_point(ctx, kind, c, pdesc, durs):
         if r4[8] is not None or (r4[7] != want4 and (exact or abs(r4[7] - want4) > TOL)):
             ctx.violation("sub_instant", dict(sig, exact=exact), case, str(want4),
                           {"instant": str(r4[7]), "result": impl.sstr(q4), "why": r4[8]})
+        if k_du % 5 == 0 and not q._dump_format:
+            # differential oracle for derived values: a twin built by the constructor from q's fields answers alike
+            try:
+                tw = impl.fresh_twin(q)
+                if tw is not None:
+                    ctx.transitions += 3
+                    if not (tw == q) or hash(tw) != hash(q) or str(tw) != str(q):
+                        ctx.violation("derived_equals_constructed", sig, case, {"constructed": impl.sstr(tw), "hash": hash(tw)},
+                                      {"derived": impl.sstr(q), "hash": hash(q), "eq": tw == q})
+            except OverflowError:
+                pass   # year outside the printable range of the agreed digits
+            except Exception as e:
+                ctx.violation("derived_equals_constructed", dict(sig, exc=type(e).__name__), case,
+                              "a constructor twin of the result exists and compares", repr(e))
         ctx.outcome("day_carry", qdn - dn)
         ctx.outcome("year_carry", f[0] - pdesc["f"][0])
     if impl.canon_point(p) != key_p:
         ctx.violation("operand_unchanged", sig, {"kind": "add", "mode": kind, "p": pdesc, "d": {}},
                       "operand not modified by arithmetic", impl.sstr(p))
+
+
+DERIVATIONS = ["cal", "ord", "week", "rezone", "ord>cal", "week>ord", "cal>week", "hms"]
+
+
+def _derive(p, how):
+    if how == "cal":
+        return p.to_calendar_date()
+    if how == "ord":
+        return p.to_ordinal_date()
+    if how == "week":
+        return p.to_week_date()
+    if how == "rezone":
+        return p.to_time_zone(impl.TimeZone(hours=-3, minutes=-30))
+    if how == "ord>cal":
+        return p.to_ordinal_date().to_calendar_date()
+    if how == "week>ord":
+        return p.to_week_date().to_ordinal_date()
+    if how == "cal>week":
+        return p.to_calendar_date().to_week_date()
+    if how == "hms":
+        return p.to_hour_minute_second()
+    raise ValueError(how)
 
 
 def check_add(ctx, kind, pdesc, ddesc):
@@ -189,6 +251,20 @@ def _civil(kind, rep, inst, off):
 def run_unit(unit, ctx):
     u = unit[0]
     kind = unit[1]
+    if u == "derived":
+        impl.set_mode(A.MODE_OF[kind])
+        c = M.cal(kind)
+        rep = unit[2]
+        years = [2000, 2004, 2020, 2021] if ctx.tier == "quick" else A.Y_S
+        for pdesc in pools.point_descs(kind, rep, pools.T_WHOLE[:1] + pools.T_WHOLE[5:] + pools.T_24 + pools.T_DYADIC[:1],
+                                       pools.Z0 + pools.Z_DEV[1:2], years, "small"):
+            for via in DERIVATIONS:
+                if via == rep or (via == "hms" and pdesc["t"][0] == "hms"):
+                    continue
+                ctx.state_count += 1
+                check_point(ctx, kind, c, dict(pdesc, via=via), _durs("core"))
+        ctx.maximum("max_ticks_per_execution", impl.max_ticks_seen())
+        return
     if u == "switch":
         for kx in (unit[1], unit[2], unit[1]):
             impl.set_mode(A.MODE_OF[kx])
